@@ -316,7 +316,7 @@ func c18Run(sc qScenario) (vs []ev.V) {
 					continue
 				}
 				le := fate[r].LastErr
-				if ann := le.Annotated(); ann != nil && ann.Kind == "smtp" && !le.TempOverAnnotated() {
+				if ann := le.Annotated(); ann != nil && ann.Kind == "smtp" && !le.TempOverAnnotated() && (ann.Code/100 == 4 || ann.Code/100 == 5) { // (a 2yz code inside a failure cannot be reported as it is)
 					if !strings.Contains(g.Diag, fmt.Sprint(ann.Code)) && g.Diag != "" {
 						vs = append(vs, ev.Vf("report:diagnostic-code", "%s: Diagnostic-Code %q for %s, the last error was %s", where, g.Diag, g.FinalRcpt, le))
 					}
